@@ -68,8 +68,9 @@ fn make(kind: &'static str, name: &str, k: usize, variant: usize) -> Item {
     let extension = k > 0;
     let has_body = kind != "scalar";
     let has_impl = kind == "type" || kind == "interface";
-    // definition: everything; extension variants: 0 directives only, 1 body only, 2 both, 3 implements (+ directive)
-    let (d, b, im) = if !extension { (true, true, true) } else { match variant { 0 => (true, false, false), 1 => (!has_body, true, false), 2 => (true, true, false), _ => (true, false, true) } };
+    // definition: everything; extension variants: 0 directives only, 1 body only, 2 both, 3 implements + directive,
+    // 4 implements only (nothing else at all), 5 implements + body
+    let (d, b, im) = if !extension { (true, true, true) } else { match variant { 0 => (true, false, false), 1 => (!has_body, true, false), 2 => (true, true, false), 3 => (true, false, true), 4 => (false, false, true), _ => (false, true, true) } };
     Item {
         kind,
         name: name.to_string(),
@@ -126,7 +127,7 @@ fn cases(thorough: bool) -> Vec<Case> {
     let kinds: [&'static str; 7] = ["schema", "scalar", "type", "interface", "union", "enum", "input"];
     // 1. one definition with 0..3 extensions, every choice of components, the definition at every place among them
     for kind in kinds {
-        let nvar = if kind == "type" || kind == "interface" { 4 } else if kind == "scalar" { 1 } else { 3 };
+        let nvar = if kind == "type" || kind == "interface" { 6 } else if kind == "scalar" { 1 } else { 3 };
         for n in 0..=3usize {
             let combos = (nvar as usize).pow(n as u32);
             for c in 0..combos {
@@ -190,7 +191,7 @@ fn cases(thorough: bool) -> Vec<Case> {
         let mut bare = make(kind, "A", 0, 0);
         bare.dirs.clear();
         bare.implements.clear();
-        let nvar = if kind == "type" || kind == "interface" { 4 } else if kind == "scalar" { 1 } else { 3 };
+        let nvar = if kind == "type" || kind == "interface" { 6 } else if kind == "scalar" { 1 } else { 3 };
         for c in 0..nvar * nvar {
             let e1 = make(kind, "A", 1, c % nvar);
             let e2 = make(kind, "A", 2, c / nvar);
